@@ -505,14 +505,23 @@ func startForwarder(t *testing.T) {
 	// Run registers the internal face and then its own FIB entry; after that it only waits on its transport, so the
 	// harness may replace the FIB variable between rounds (in the daemon it is set once at start-up)
 	nfd, _ := enc.NameFromStr("/localhost/nfd")
-	deadline := time.Now().Add(5 * time.Second)
-	for len(table.FibStrategyTable.FindNextHopsEnc(nfd)) == 0 {
-		if time.Now().After(deadline) {
-			t.Fatalf("management thread never registered /localhost/nfd")
+	// no deadline decides anything here: the entry is the management thread's last access to the FIB variable, and seeing
+	// it (through the FIB's own lock) orders that access before everything the harness does next
+	waitEntry := func(n enc.Name) {
+		last := time.Now()
+		for len(table.FibStrategyTable.FindNextHopsEnc(n)) == 0 {
+			if time.Since(last) > stuckAfter {
+				stillWaiting()
+				last = time.Now()
+			}
+			time.Sleep(100 * time.Microsecond)
 		}
-		time.Sleep(100 * time.Microsecond)
 	}
-	time.Sleep(2 * time.Millisecond)
+	waitEntry(nfd)
+	if fwmgmt.VerifLocalhopEnabled() {
+		lh, _ := enc.NameFromStr("/localhop/nfd")
+		waitEntry(lh)
+	}
 }
 
 // stuckAfter: an operation on the tables that has not returned after this long is reported as stuck (deadlock) and the
@@ -576,9 +585,9 @@ func deadlocked() (bool, string) {
 	n := runtime.Stack(buf, true)
 	waiting, active := 0, 0
 	var sample string
-	for _, g := range strings.Split(string(buf[:n]), "\n\n") {
-		if !strings.Contains(g, "github.com/named-data/ndnd/fw/") {
-			continue
+	for gi, g := range strings.Split(string(buf[:n]), "\n\n") {
+		if gi == 0 {
+			continue // the inspecting goroutine itself (runtime.Stack lists the caller first)
 		}
 		i, j := strings.Index(g, "["), strings.Index(g, "]")
 		if i < 0 || j < i {
@@ -587,6 +596,13 @@ func deadlocked() (bool, string) {
 		state := g[i+1 : j]
 		if k := strings.Index(state, ","); k >= 0 {
 			state = state[:k]
+		}
+		if !strings.Contains(g, "github.com/named-data/ndnd/fw/") {
+			// harness-only goroutine: if it can run, something the forwarder's goroutines wait for may still happen
+			if state == "running" || state == "runnable" {
+				active++
+			}
+			continue
 		}
 		switch {
 		case lockWaitState(state):
@@ -616,14 +632,12 @@ func confirmDeadlock() (bool, string) {
 	return d2, why
 }
 
-var slowSince time.Time
+var slowTotal time.Duration
 
 // stillWaiting is called each time a wait has lasted another stuckAfter without a deadlock being visible
 func stillWaiting() {
-	if slowSince.IsZero() {
-		slowSince = time.Now()
-	}
-	if time.Since(slowSince) > hardCap {
+	slowTotal += stuckAfter
+	if slowTotal > hardCap {
 		fmt.Fprintf(harnessW, "N the machine is too slow: waits added up to more than %v although no deadlock is visible; the remaining rounds are abandoned\n", hardCap)
 		harnessW.Flush()
 		os.Exit(0)
@@ -1372,7 +1386,6 @@ func TestConc(t *testing.T) {
 	cfg.Tables.Rib.ReadvertiseNlsr = false
 	core.LoadConfig(cfg, "/tmp")
 	table.Configure()
-	startForwarder(t)
 
 	f, err := os.Create(out)
 	if err != nil {
@@ -1383,6 +1396,7 @@ func TestConc(t *testing.T) {
 	defer w.Flush()
 	g := &gen{r: rand.New(rand.NewSource(seed))}
 	harnessT, harnessW = t, w
+	startForwarder(t)
 	if os.Getenv("VERIF_NOFORCED") == "" {
 		forcedRounds(t, w)
 		lifecycleRounds(t, w)
